@@ -214,7 +214,7 @@ class Ser:
         elif o == "traj":
             c = E.build_exp(env, sc, s["e"])
             is_tc = lambda n: n.is_sometime() or n.is_sometime_after() or n.is_sometime_before() or n.is_at_most_once() or n.is_always()
-            good = all(is_tc(a) for a in c.args) if (c.is_and() or c.is_forall()) else is_tc(c)
+            good = all(is_tc(a) for a in c.args) if (c.is_and() or c.is_forall()) else (is_tc(c) or c.is_bool_constant())
             if not good:
                 pre = exc_code("AssertionError")
                 body = "OTraj 0"
